@@ -2,7 +2,7 @@
    Only statements closed by [exact]; models in C14/ReprModel.v, proofs in C14/*Proofs.v.
    "Ring K" abbreviates: the operations of K form a commutative ring (Leibniz equality). *)
 From Coq Require Import List Arith Permutation Reals ZArith QArith.
-From PV Require Import C14.ReprModel C14.IndexProofs C14.ReprProofs C14.RealInst C14.SurdRun.
+From PV Require Import C14.ReprModel C14.IndexProofs C14.ReprProofs C14.RealInst C14.SurdRun C14.ObsModel C14.ObsProofs.
 Import ListNotations.
 Close Scope R_scope.
 Close Scope Q_scope.
@@ -298,6 +298,114 @@ Theorem C14_xp_string_moment_scales : forall (A : Type) (K : ops A), Ring K ->
   cscale K (rpow K sh (length ops)) (xp_string_moment K (o1 K) rt2 (o1 K) i2 d s ops).
 Proof. exact xp_string_moment_scales. Qed.
 Print Assumptions C14_xp_string_moment_scales.
+
+(* 6. observables computed from the ladder moments.  [prep K i4 hb ihb sh isq d nu N] is the state
+   with normalised moments (nu, N) written under hbar = hb by the setters.  Its ladder moments do
+   not depend on hbar, and density matrix / Fock probabilities, parity, phase-shifter value,
+   photon-number variance are functions of the ladder moments whatever their kernels compute. *)
+Theorem C14_ladder_from_normalised : forall (A : Type) (K : ops A), Ring K ->
+  forall hbar ihbar rt2 sh isq irt2 i4 : A,
+  omul K ihbar hbar = o1 K -> omul K isq (omul K rt2 sh) = o1 K -> omul K irt2 rt2 = o1 K ->
+  forall d (mean nu : vec A) (cov N : mat A),
+  (forall k, mean k = omul K sh (nu k)) -> (forall i j, cov i j = omul K hbar (N i j)) ->
+  st_eq (set_xpxp K ihbar i4 isq d mean cov) (set_xpxp K (o1 K) i4 irt2 d nu N).
+Proof. exact ladder_from_normalised. Qed.
+Print Assumptions C14_ladder_from_normalised.
+
+Theorem C14_same_ladder_moments_at_any_two_hbar : forall (A : Type) (K : ops A), Ring K ->
+  forall h ih sh isq h' ih' sh' isq' rt2 irt2 i4 : A,
+  omul K ih h = o1 K -> omul K isq (omul K rt2 sh) = o1 K ->
+  omul K ih' h' = o1 K -> omul K isq' (omul K rt2 sh') = o1 K -> omul K irt2 rt2 = o1 K ->
+  forall d nu N, st_eq (prep A K i4 h ih sh isq d nu N) (prep A K i4 h' ih' sh' isq' d nu N).
+Proof. exact same_ladder_moments_at_any_two_hbar. Qed.
+Print Assumptions C14_same_ladder_moments_at_any_two_hbar.
+
+Theorem C14_ladder_observable_same_at_any_two_hbar : forall (A : Type) (K : ops A), Ring K ->
+  forall h ih sh isq h' ih' sh' isq' rt2 irt2 i4 : A,
+  omul K ih h = o1 K -> omul K isq (omul K rt2 sh) = o1 K ->
+  omul K ih' h' = o1 K -> omul K isq' (omul K rt2 sh') = o1 K -> omul K irt2 rt2 = o1 K ->
+  forall (R : Type) (F : gstate A -> R), (forall s s', st_eq s s' -> F s = F s') ->
+  forall d nu N, F (prep A K i4 h ih sh isq d nu N) = F (prep A K i4 h' ih' sh' isq' d nu N).
+Proof. exact ladder_observable_same_at_any_two_hbar. Qed.
+Print Assumptions C14_ladder_observable_same_at_any_two_hbar.
+
+Theorem C14_density_model_ext : forall (A : Type) (K : ops A) (R Occ : Type) kernel d s s' (occ : Occ),
+  st_eq s s' -> density_model K R Occ kernel d s occ = density_model K R Occ kernel d s' occ.
+Proof. exact density_model_ext. Qed.
+Print Assumptions C14_density_model_ext.
+
+Theorem C14_parity_model_ext : forall (A : Type) (K : ops A) (R : Type) kernel d s s',
+  st_eq s s' -> parity_model K R kernel d s = parity_model K R kernel d s'.
+Proof. exact parity_model_ext. Qed.
+Print Assumptions C14_parity_model_ext.
+
+Theorem C14_phaseshifter_model_ext : forall (A : Type) (K : ops A) (R : Type)
+  (kernel : list (list (Cx A)) -> list (Cx A) -> list (Cx A) -> R) i2 d s s' z,
+  st_eq s s' -> phaseshifter_model K kernel i2 d s z = phaseshifter_model K kernel i2 d s' z.
+Proof. exact phaseshifter_model_ext. Qed.
+Print Assumptions C14_phaseshifter_model_ext.
+
+Theorem C14_variance_photon_number_ext : forall (A : Type) (K : ops A) d s s',
+  st_eq s s' -> variance_photon_number K d s = variance_photon_number K d s'.
+Proof. exact variance_photon_number_ext. Qed.
+Print Assumptions C14_variance_photon_number_ext.
+
+Theorem C14_density_same_at_any_two_hbar : forall (A : Type) (K : ops A), Ring K ->
+  forall h ih sh isq h' ih' sh' isq' rt2 irt2 i4 : A,
+  omul K ih h = o1 K -> omul K isq (omul K rt2 sh) = o1 K ->
+  omul K ih' h' = o1 K -> omul K isq' (omul K rt2 sh') = o1 K -> omul K irt2 rt2 = o1 K ->
+  forall (R Occ : Type) kernel d nu N (occ : Occ),
+  density_model K R Occ kernel d (prep A K i4 h ih sh isq d nu N) occ
+  = density_model K R Occ kernel d (prep A K i4 h' ih' sh' isq' d nu N) occ.
+Proof. exact density_same_at_any_two_hbar. Qed.
+Print Assumptions C14_density_same_at_any_two_hbar.
+
+Theorem C14_parity_same_at_any_two_hbar : forall (A : Type) (K : ops A), Ring K ->
+  forall h ih sh isq h' ih' sh' isq' rt2 irt2 i4 : A,
+  omul K ih h = o1 K -> omul K isq (omul K rt2 sh) = o1 K ->
+  omul K ih' h' = o1 K -> omul K isq' (omul K rt2 sh') = o1 K -> omul K irt2 rt2 = o1 K ->
+  forall (R : Type) kernel d nu N,
+  parity_model K R kernel d (prep A K i4 h ih sh isq d nu N)
+  = parity_model K R kernel d (prep A K i4 h' ih' sh' isq' d nu N).
+Proof. exact parity_same_at_any_two_hbar. Qed.
+Print Assumptions C14_parity_same_at_any_two_hbar.
+
+Theorem C14_phaseshifter_same_at_any_two_hbar : forall (A : Type) (K : ops A), Ring K ->
+  forall h ih sh isq h' ih' sh' isq' rt2 irt2 i4 : A,
+  omul K ih h = o1 K -> omul K isq (omul K rt2 sh) = o1 K ->
+  omul K ih' h' = o1 K -> omul K isq' (omul K rt2 sh') = o1 K -> omul K irt2 rt2 = o1 K ->
+  forall (R : Type) (kernel : list (list (Cx A)) -> list (Cx A) -> list (Cx A) -> R) i2 d nu N z,
+  phaseshifter_model K kernel i2 d (prep A K i4 h ih sh isq d nu N) z
+  = phaseshifter_model K kernel i2 d (prep A K i4 h' ih' sh' isq' d nu N) z.
+Proof. exact phaseshifter_same_at_any_two_hbar. Qed.
+Print Assumptions C14_phaseshifter_same_at_any_two_hbar.
+
+Theorem C14_variance_same_at_any_two_hbar : forall (A : Type) (K : ops A), Ring K ->
+  forall h ih sh isq h' ih' sh' isq' rt2 irt2 i4 : A,
+  omul K ih h = o1 K -> omul K isq (omul K rt2 sh) = o1 K ->
+  omul K ih' h' = o1 K -> omul K isq' (omul K rt2 sh') = o1 K -> omul K irt2 rt2 = o1 K ->
+  forall d nu N,
+  variance_photon_number K d (prep A K i4 h ih sh isq d nu N)
+  = variance_photon_number K d (prep A K i4 h' ih' sh' isq' d nu N).
+Proof. exact variance_same_at_any_two_hbar. Qed.
+Print Assumptions C14_variance_same_at_any_two_hbar.
+
+(* purify: the array handed to williamson is hbar-free, and the purification has the ladder
+   moments of the one built at hbar = 1 whatever williamson / beta compute *)
+Theorem C14_purify_williamson_arg_hbar_free : forall (A : Type) (K : ops A), Ring K ->
+  forall hbar ihbar : A, omul K ihbar hbar = o1 K -> forall d s,
+  purify_williamson_arg K hbar ihbar d s = purify_williamson_arg K (o1 K) (o1 K) d s.
+Proof. exact purify_williamson_arg_hbar_free. Qed.
+Print Assumptions C14_purify_williamson_arg_hbar_free.
+
+Theorem C14_purify_hbar_free : forall (A : Type) (K : ops A), Ring K ->
+  forall hbar ihbar rt2 sh isq irt2 i4 : A,
+  omul K ihbar hbar = o1 K -> omul K isq (omul K rt2 sh) = o1 K -> omul K irt2 rt2 = o1 K ->
+  forall (beta_kernel : list (list A) -> mat A) d s,
+  st_eq (purify_model K beta_kernel hbar ihbar rt2 sh isq i4 d s)
+        (purify_model K beta_kernel (o1 K) (o1 K) rt2 (o1 K) irt2 i4 d s).
+Proof. exact purify_hbar_free. Qed.
+Print Assumptions C14_purify_hbar_free.
 
 (* ---- non-vacuity: the model computes, the hypotheses are satisfiable ---- *)
 Example C14_indices_d3 : x2p_list 3 = [0; 3; 1; 4; 2; 5] /\ p2x_list 3 = [0; 2; 4; 1; 3; 5].
